@@ -35,7 +35,7 @@ def run(ctx, report: Report) -> None:
     wrappers_table(ctx, r1)
 
     # ---- R2 ----------------------------------------------------------------------------------------------
-    r2 = report.rule('C03-R2', 'one decision procedure behind every entry point', floor=58)
+    r2 = report.rule('C03-R2', 'one decision procedure behind every entry point', floor=62)
     mmod = src.mod('css_match')
     # (a) the top-level list self.selectors is handed to match_selectors only inside CSSMatch.match
     for q, fn in mmod.functions.items():
@@ -110,7 +110,7 @@ def run(ctx, report: Report) -> None:
     identity_table(ctx, r3)
 
     # ---- R5 (the whole pipeline by interpretation, bounded) --------------------------------------------------------------
-    r5 = report.rule('C03-R5', 'select / iselect / select_one / limit / filter / closest agree with match() element by element (bounded)', floor=5)
+    r5 = report.rule('C03-R5', 'select / iselect / select_one / limit / filter / closest agree with match() element by element (bounded)', floor=8)
     from .e2ematch import api_consistency_table
     api_consistency_table(ctx, r5, deep=(ctx.tier == 'thorough'))
 
